@@ -683,8 +683,9 @@ def shards(tier):
     def tup(ctx, k, layouts, dtypes, full=False):
         cases = list(tuple_cases(k, layouts, dtypes, full))
         drive_enum(ctx, body_tuples, cases, size=len(cases),
-                   space="value tuples k=%d x ref 1..k x %d data_vars orders x layouts %s x %s" % (
-                       k, len(_orders(k, full)), "/".join(layouts), "/".join(dtypes)))
+                   space="value tuples k=%d x %s x %d data_vars orders x layouts %s x %s" % (
+                       k, "ref 1..k" if k <= 5 else "no ref operators (6 variables in all)", len(_orders(k, full)),
+                       "/".join(layouts), "/".join(dtypes)))
 
     def cfg(ctx, L, variant, lo=0, hi=None):
         size = (hi if hi is not None else config_size(L)) - lo
